@@ -19,6 +19,8 @@ Reader side (json_array_stream_provider.go, json_object_stream_provider.go): the
 
 Everything is over `Bytes = List UInt8`.
 -/
+
+set_option autoImplicit false
 namespace ShpanVerif.Model.JsonFrame
 
 abbrev Bytes := List UInt8
